@@ -104,14 +104,16 @@ class C10(Prop):
             t += case["eol"]
         return t
 
-    def _all_entries(self, cls, name, ext, text, header_only):
+    def _all_entries(self, cls, name, ext, text, header_only, autocorrect=False):
         path = iolib.put(name, text)
         res = {}
-        res["file"] = iolib.parse_impl("file", cls, path=path, header_only=header_only)[0]
+        res["file"] = iolib.parse_impl("file", cls, path=path, header_only=header_only, autocorrect=autocorrect)[0]
         res["str"] = iolib.parse_impl("str", cls, content=text, data_type=ext, file_name=name,
-                                      header_only=header_only)[0]
-        res["url"] = iolib.parse_impl("url", cls, path=path, header_only=header_only)[0]
-        res["get"] = iolib.parse_impl("get", None, path=path, header_only=header_only)[0]
+                                      header_only=header_only, autocorrect=autocorrect)[0]
+        res["url"] = iolib.parse_impl("url", cls, path=path, header_only=header_only, autocorrect=autocorrect)[0]
+        res["get"] = iolib.parse_impl("get", None, path=path, header_only=header_only, autocorrect=autocorrect)[0]
+        if autocorrect:
+            return res
         # the same entry point called the other documented ways (after the four that the model mirrors)
         res["str_default"] = iolib.parse_impl("str_default", cls, content=text, data_type=ext, header_only=header_only)[0]
         res["str_positional"] = iolib.parse_impl("str_positional", cls, content=text, data_type=ext, file_name=name,
@@ -148,6 +150,8 @@ class C10(Prop):
         obs["canonical"] = iolib.parse_impl("str", j["cls"], content=text, data_type=ext, file_name=name)[0]
         obs["full"] = self._all_entries(j["cls"], "v_" + name, ext, var, False)
         obs["header_only"] = self._all_entries(j["cls"], "h_" + name, ext, var, True)
+        # both flags together: the content is clean, so autocorrect must not change what header_only yields
+        obs["header_only_auto"] = self._all_entries(j["cls"], "a_" + name, ext, var, True, autocorrect=True)
         return obs
 
     def requests(self, case, obs):
@@ -221,6 +225,18 @@ class C10(Prop):
             dh += [k for k in keys if iolib.canon(h)[k] != ref[k]]
             if dh:
                 P(f"{entry}(header_only=True) differs in metadata/counts {dh}", "header_only/" + entry)
+        for entry, r in obs.get("header_only_auto", {}).items():
+            base = obs["header_only"].get(entry)
+            if base is None or base[0] != "ok":
+                continue
+            if r[0] != "ok":
+                P(f"{entry}(header_only=True, autocorrect=True) fails with {r[1]}", "header_only_auto/" + entry)
+                continue
+            # names may repeat in the generated content (autocorrect renames them): counts and metadata only
+            dh = iolib.diff(iolib.canon(base[1]), iolib.canon(r[1]), skip=("file_name", "alternatives_name", "categories_name"))
+            if dh:
+                P(f"{entry}(header_only=True, autocorrect=True) differs from header_only=True alone on {dh} (no ballot "
+                  "is read, so there is nothing to recount)", "header_only_auto/" + entry)
         # model
         names = ["file", "str", "url", "get"]
         for k, rep in enumerate(replies[:8]):
